@@ -165,9 +165,7 @@ func evalFilter(f *Filter, st docState) bool {
 	return false
 }
 
-// drawLeaf draws a comparison. full=false restricts it to what a mutation filter may use:
-// no negative forms (they would also select documents the case does not know about) and no
-// indexed field.
+// drawLeaf draws a comparison; full adds the negative forms, indexed the indexed field u.
 func drawLeaf(t *rapid.T, full, indexed bool) Filter {
 	fields := []string{"age", "age", "tag"}
 	if indexed {
@@ -226,9 +224,10 @@ func drawSubFilter(t *rapid.T, indexed bool) *Filter {
 
 // drawMutFilter draws the filter of a filtered update/delete/upsert.
 func drawMutFilter(t *rapid.T) *Filter {
+	indexed := rapid.IntRange(0, 3).Draw(t, "mutIndexed") == 0
 	if rapid.IntRange(0, 3).Draw(t, "conj") == 0 {
-		return &Filter{Op: "and", Subs: []Filter{drawLeaf(t, false, false), drawLeaf(t, false, false)}}
+		return &Filter{Op: "and", Subs: []Filter{drawLeaf(t, true, indexed), drawLeaf(t, true, indexed)}}
 	}
-	f := drawLeaf(t, false, false)
+	f := drawLeaf(t, true, indexed)
 	return &f
 }
